@@ -132,11 +132,6 @@ let quirk_keys = [
   "int-accepts-non-int32", (fun q -> { q with q_int_any_number = false });
   "id-accepts-non-integer-number", (fun q -> { q with q_id_any_number = false });
   "upload-exempt-from-non-null", (fun q -> { q with q_upload_exempt = false });
-  "field-null-uses-field-default", (fun q -> { q with q_field_null_default = false });
-  "list-element-null-uses-field-default", (fun q -> { q with q_elem_null_default = false });
-  "inject-defaults-index-drift", (fun q -> { q with q_inject_drift = false });
-  "inject-defaults-enum-ref", (fun q -> { q with q_inject_kind = false });
-  "inject-defaults-string-reparsed", (fun q -> { q with q_inject_reparse = false });
   "remap-name-collision-upload", (fun q -> { q with q_remap_collision = false });
 ]
 
